@@ -30,9 +30,21 @@ CLAIMS = {
   "note": "Depths {0..4} quick / {0..6, 8} thorough, widths {0,1,2}; kernel composition model (edge = woken sync processes, commit, comb settling with a proved convergence certificate) is trusted; slot contracts verified in C08/C11.",
   "technique": "contract-based deductive verification: representation invariant + abstract view over generated process code, VCs by symbolic execution, z3",
  },
+ "C17": {
+  "text": "Per-operation contracts on the real FFSynchronizer, AsyncFFSynchronizer, ResetSynchronizer and PulseSynchronizer: the flops are the representation, clock edges and asynchronous input transitions are the operations (bodies = the generated run() code, composed by the kernel's delta-cycle loop). Proved from EVERY state and for every data value: stage k takes stage k-1 at each output edge and nothing changes otherwise, so an input value reaches the output exactly at the stages-th edge (k-step unrolling) and the output shows init before; asynchronous assertion sets the output at once without a clock edge and release takes exactly `stages` edges; for the pulse synchroniser a ghost-counter invariant (input pulses - output pulses == toggles in flight) is preserved by input edges, output edges and simultaneous edges under the stated environment precondition, and stages+1 output edges drain everything in flight. _check_stages exceptional postconditions.",
+  "design_ref": "DESIGN.md 3C, 4/C17",
+  "note": "stages in {2,3} quick / {2..5} thorough, widths {1,2(,3)}; kernel composition model trusted (edge wakers read off the real add_signal_waker calls); slot contract of update from C08.",
+  "technique": "contract-based deductive verification: per-edge contracts and ghost counters over generated process code, z3",
+ },
+ "C18": {
+  "text": "Port algebra contracts decided by exhaustive enumeration of a finite space (all widths <= bound, every inversion mask, every index/slice/concatenation/inversion of SingleEndedPort, DifferentialPort and SimulationPort against a list-of-bits reference: length, per-bit inversion, direction, underlying bit identity). Buffer and FFBuffer on simulation ports and on composed port expressions: the generated code is proved, for ALL signal values, to drive port.o with o XOR mask, every port.oe bit with oe, and to present (looped-back o while enabled, else port.i) XOR mask on i, with exactly one register stage each way for FFBuffer (one-edge lemma from arbitrary state, nothing changes without an edge). Single use of every real I/O port bit: closed obligations on the real build_netlist (DriverConflict iff a bit is used twice).",
+  "design_ref": "DESIGN.md 3C, 4/C18",
+  "note": "Widths <= 2 quick / 3 thorough; the fabric-side placement of the inversion in netlists for real ports is left to C04's netlist evaluator; kernel composition model trusted.",
+  "technique": "contract-based deductive verification: finite exhaustive port-algebra contracts + buffer process contracts, z3",
+ },
 }
 NOT_APPLICABLE = {
  "C14": "reflective generators, attribute proxies and a 120-line lock-step loop over heterogeneous objects (flatten, is_compliant, connect) are outside the subset a VC generator built here models soundly; the reachable flip algebra is too small to carry the property (DESIGN.md 4/C14)",
 }
-for _p in ["C03","C04","C06","C07","C08","C09","C11","C13","C15","C16","C17","C18","C19","C20"]:
+for _p in ["C03","C04","C06","C07","C08","C09","C11","C13","C15","C16","C19","C20"]:
     NOT_APPLICABLE.setdefault(_p, "check not built yet in this session (work in progress; see DESIGN.md section 4 for the plan)")
